@@ -256,8 +256,9 @@ class AllGatesLoop:
     """for cur_gate in self.gates.values(): if cur_gate.gate_type == INPUT and cur_gate.label not in inputs: raise …
     (no state change; the gates enumerated so far that are inputs are among the requested labels)"""
 
-    def __init__(self, h, items):
+    def __init__(self, h, items, listed=None):
         self.h, self.items = h, items
+        self.listed = listed or (lambda x: z3.Or([x == y for y in items]) if items else z3.BoolVal(False))
 
     def applies(self, it, env, iterable):
         if isinstance(iterable, CM.GateValues):
@@ -273,7 +274,7 @@ class AllGatesLoop:
         i = z3.Int('i!ag')
         y = self.y
         return [('enumerated-inputs-are-requested',
-                 z3.ForAll([i], z3.Implies(z3.And(i >= 0, i < k, S0.typ(y(i)) == GT['INPUT']), z3.Or([y(i) == x for x in self.items]) if self.items else z3.BoolVal(False))))]
+                 z3.ForAll([i], z3.Implies(z3.And(i >= 0, i < k, S0.typ(y(i)) == GT['INPUT']), self.listed(y(i)))))]
 
 
 class SetInputs(CircuitContract):
@@ -392,10 +393,11 @@ class MakeBlock(CircuitContract):
 def contracts():
     from .c19_rename import RenameGate
     from .c14_loop import IntoBench
-    from .c02_order import OrderList, OrderInOut
+    from .c02_order import OrderList, OrderInOut, SetInputsAny
+    from .c02_copy import Copy
     deep = env.TIER == 'thorough'
     order = [OrderList(k) for k in ((0, 1, 2, 3, 4) if deep else (0, 1, 2, 3))] + [OrderInOut(w, k) for w in ('in', 'out') for k in ((0, 1, 2, 3) if deep else (0, 1, 2))]
-    return order + [RenameGate(), IntoBench(), UserPrim('_add_user'), UserPrim('_remove_user'),
+    return order + [SetInputsAny(), Copy(), RenameGate(), IntoBench(), UserPrim('_add_user'), UserPrim('_remove_user'),
             AddGateLike('_emplace_gate', False), AddGateLike('_add_gate', False), AddGateLike('emplace_gate', True), AddGateLike('add_gate', True),
             RemoveGate(), MarkAsOutput(), SetOutputs(), DeleteBlock(), MakeBlock(0, 0, 0), MakeBlock(1, 1, 1), MakeBlock(2, 1, 2)] + [SetInputs(k) for k in ((0, 1, 2, 3, 4) if env.TIER == 'thorough' else (0, 1, 2, 3))] + [AddInputs(k) for k in ((0, 1, 2, 3) if env.TIER == 'thorough' else (0, 1, 2))]
 
@@ -408,8 +410,8 @@ def run(rep):
                                             'background lemmas on tuples: count view = full prefix count; prefix counts are monotone']
     for a in STD_ASSUME:
         rep.assume(a)
-    rep.assume('P covers _add_user, _remove_user, _emplace_gate, _add_gate, emplace_gate, add_gate, remove_gate/_remove_gate, rename_gate, into_bench, mark_as_output, set_outputs, set_inputs (<=3 labels), add_inputs (<=2 labels), order_inputs/order_outputs (utils.order_list, requested prefix <=3, lists of any length), make_block with given lists (<=2 labels each), delete_block; '
-               'the remaining mutators (replace_inputs [C19], make_block with collected inputs, make_block_from_slice, connect_circuit family, replace_subcircuit, remove_block, __copy__) are bounded-only here '
+    rep.assume('P covers _add_user, _remove_user, _emplace_gate, _add_gate, emplace_gate, add_gate, remove_gate/_remove_gate, rename_gate, into_bench, mark_as_output, set_outputs, set_inputs (lists of any length, and again <=3 labels with exact raise conditions), add_inputs (<=2 labels), copy.copy / __copy__ (any circuit, c02_copy.py), order_inputs/order_outputs (utils.order_list, requested prefix <=3, lists of any length), make_block with given lists (<=2 labels each), delete_block; '
+               'the remaining mutators (replace_inputs [C19], make_block with collected inputs, make_block_from_slice, connect_circuit family, replace_subcircuit, remove_block) are bounded-only here '
                '(into_bench: loop proved here against the contract of convert_gate, whose clauses are discharged per gate type under C14)')
     it = new_interp()
     pv = Prover(rep, it, 'C02')
